@@ -287,6 +287,11 @@ class Thm:
 
         """
         try:
+            # Term.subst extends inst.tyinst by matching the types of the schematic variables
+            # of the term it is applied to.  The whole sequent must be instantiated by ONE type
+            # instantiation, so first collect it from every part, then substitute.
+            for t in th.hyps + (th.prop,):
+                t.subst(inst)
             hyps_new = tuple(hyp.subst(inst) for hyp in th.hyps)
             prop_new = th.prop.subst(inst)
         except term.TermException:
